@@ -428,7 +428,11 @@ def check_C10(res, ctx):
         rng = rng_for(ctx.seed, "C10ix", i)
         typ = 1 + i % 3
         shards = [1, 2, 3, 16, 1024][(i // 3) % 5]
-        ops, exp = itercheck.index_level(rng, typ, shards, 40 if ctx.quick else 80)
+        big = i % 20 == 19           # every 20th run: hundreds of keys, full walks
+        ops, exp = itercheck.index_level(rng, typ, [1, 2][(i // 20) % 2] if big else shards, 40 if ctx.quick else 80, nkeys=(400 if big else None))
+        if big:
+            shards = 0
+            res.count("large_key_sets")
         res.count("index_type%d" % typ)
         res.count("shards%d" % shards)
         exact_check(res, ctx, "index-level iterator run %d (type %d, %d shards)" % (i, typ, shards), ops, exp)
@@ -748,7 +752,11 @@ def check_C14(res, ctx):
         same("DB-level", ops, runs)
     for i in range(6 if ctx.quick else 80):
         rng = rng_for(ctx.seed, "C14ix", i)
-        ops, exp = itercheck.index_level(rng, 1, 1, 40 if ctx.quick else 120)
+        # the last script has a LARGE key set (hundreds of keys per shard) with full walks
+        big = i == (5 if ctx.quick else 79) or (not ctx.quick and i % 16 == 15)
+        ops, exp = itercheck.index_level(rng, 1, 1, 40 if ctx.quick else 120, nkeys=(400 if big else None))
+        if big:
+            res.count("index_cursor_scripts:large_key_sets")
         runs = []
         for typ in (1, 2, 3):
             for sh in SHARDS:
@@ -1221,23 +1229,26 @@ def check_C20(res, ctx):
             res.sample({"ops_tail": ops[-30:]})
     # a backup INTO THE DIRECTORY OF AN EARLIER BACKUP, after a merge and its adoption have replaced data files of the source by
     # shorter ones: the copy must be the source's files, not the new bytes followed by the tail of the old copy
-    for i in range(4 if ctx.quick else 40):
+    for i in range(6 if ctx.quick else 40):
         rng = rng_for(ctx.seed, "C20r", i)
         io = i % 2
         cfg = {"fs": rng.choice([4096, 8192]), "sync": 0, "bps": 0, "idx": rng.choice([1, 2, 3]), "io": io, "shards": 4}
         keys = ["%02x%02x" % (97 + j, 97 + j) for j in range(6)]
         seed = rng.randrange(1000)
         ops = [engine.open_line("d", cfg)]
+        # every other run uses ONE record size throughout: the files a merge rewrites then have the very sizes of the files they
+        # replace (same id, same size, other content) - a copy must not be skipped because "it is already there"
+        uniform = rng.choice([500, 900]) if i % 2 == 1 else None
         for r in range(3):
             for k in keys:
                 seed += 1
-                ops.append("put %s p%d:%d" % (k, seed, rng.choice([300, 700, 1100, 1500])))
-        ops += ["backup bk", "del " + keys[0]]
-        for k in keys[1:4]:
+                ops.append("put %s p%d:%d" % (k, seed, uniform or rng.choice([300, 700, 1100, 1500])))
+        ops += ["backup bk"] + ([] if uniform else ["del " + keys[0]])
+        for k in (keys if uniform else keys[1:4]):
             seed += 1
-            ops.append("put %s p%d:%d" % (k, seed, rng.choice([10, 333, 900])))
+            ops.append("put %s p%d:%d" % (k, seed, uniform or rng.choice([10, 333, 900])))
         ops += ["merge", "close", engine.open_line("d", cfg)]
-        for k in keys[2:5]:
+        for k in ([] if uniform else keys[2:5]):
             seed += 1
             ops.append("put %s p%d:%d" % (k, seed, rng.choice([20, 450, 1300])))
         at_backup = len(ops) + 1
